@@ -18,7 +18,7 @@ RULE = ('Histories of 1-12 calls (vanishing times, repeats, flipped endpoints, b
 ASSUMPTIONS = ['e > t', 'no acceptance rule is stated for accumulative graphs: a call on an existing pair may succeed or raise '
                'ValueError; either way the model follows the library and checks the consequences']
 TECHNIQUE = 'model-based PBT on accumulative graphs (presence = [first add, last snapshot id]) incl. the differential query battery'
-BUDGET = {'quick': {'cases': 10000, 'seconds': 45}, 'thorough': {'cases': 160000, 'seconds': 540}}
+BUDGET = {'quick': {'cases': 7000, 'seconds': 45}, 'thorough': {'cases': 160000, 'seconds': 540}}
 KINDS = ['add', 'add', 'add', 'add', 'add', 'add_from', 'path', 'star', 'cycle', 'node', 'missing_t', 'recip']
 NB = st.lists(st.lists(st.integers(0, 7), min_size=0, max_size=4, unique=True), min_size=2, max_size=2)
 
